@@ -12,9 +12,11 @@ TARGETS = ["drv_sig"]
 DRIVER_ROOTS = ["Driver/Sig.lean"]
 GENERATED = []
 RULE = ("case = (parameter list [(name, default)], decorator options positional/optional/iterable/incrementable/"
-        "auto_shortflags/help/ignore_unknown_help, a few by-construction argvs); quick: ALL signatures with <= 2 parameters "
-        "over the 16-name vocabulary x 8 default kinds (default options), plus random signatures with <= 4 parameters "
-        "x random options; a case is non-trivial when it has >= 2 parameters or a decorator option is set; distinct = "
+        "auto_shortflags/help/ignore_unknown_help, a few by-construction argvs); the design-time witnesses, then all "
+        "1-parameter signatures and (quick: a seeded third of / thorough: all) 2-parameter signatures over the 16-name "
+        "vocabulary x 8 default kinds with default options, plus random signatures with <= 4 parameters x random options "
+        "(Task(...) and @task(...)), each also parsed with the real Parser on by-construction argvs and passed through "
+        "Executor.normalize into the task body; a case is non-trivial when it has >= 2 parameters or a decorator option is set; distinct = "
         "distinct (params, options) pairs")
 TRUSTED = ["Lean 4.33 kernel", "axioms propext/Classical.choice/Quot.sound only",
            "harness/props/c09.py correspondence + canonicalisation",
@@ -393,9 +395,15 @@ def oracle_kwargs(params, body, kw, mentioned, by_name):
     except TypeError as e:
         return ["kwargs-do-not-bind param=- %s" % e]
     for n, k in params:
-        if n in mentioned or k == "E":
+        if n in mentioned:
             continue
         a = by_name.get(n)
+        if k == "E":
+            # no default of its own: only the documented list-type rule applies (iterable + incrementable is
+            # contradictory: not constrained)
+            if a is not None and a.kind is list and not a.incrementable and not (kw[n] == [] and type(kw[n]) is list):
+                fails.append("default-not-carried param=%s got %r, a list-type parameter without default starts as []" % (n, kw[n]))
+            continue
         own = PYVAL[k]
         is_list = a is not None and a.kind is list
         ok = kw[n] == own and type(kw[n]) is type(own)
@@ -566,7 +574,7 @@ def run(ctx):
         out.exhaustive = True
     cases += ex
     out.extra["exhaustive_small_scope"] = len(ex)
-    for _ in range(ctx.n(9000, 150000)):
+    for _ in range(ctx.n(16000, 150000)):
         cases.append(random_case(rng))
     n_argv = 2
     # pass 1: the real code + oracle; collect model lines
@@ -582,6 +590,13 @@ def run(ctx):
             out.hist["opt:" + k] += 1
         if any(all_underscores(n) for n, _ in params):
             out.hist["underscore-only-name"] += 1
+        else:
+            out.hist["theorem-hypotheses-hold"] += 1  # IdentSig, NoBlankName, distinct names
+        ds = [dashed(n) for n, _ in params]
+        if len(set(ds)) != len(ds):
+            out.hist["shared-dashed-name"] += 1
+        if len(set(d[:1] for d in ds)) != len(ds):
+            out.hist["shared-initial"] += 1
         if not impl.error:
             out.hist["short-flags=%d" % sum(len(a.names) - 1 for a in impl.args)] += 1
             if impl.ctx.inverse_flags:
@@ -601,8 +616,13 @@ def run(ctx):
         else:
             out.hist["oracle-only"] += 1
         for f in fails:
-            out.fail(c, f)
             out.hist["fail:" + f.split(" ")[0]] += 1
+            if match_known({"id": "C09-underscore-only-param"}, {"case": c, "why": f}):
+                # finding #29: keep a few, so that the (capped) failure list cannot fill up with them
+                out.hist["fail:known-underscore-only"] += 1
+                if out.hist["fail:known-underscore-only"] > 20:
+                    continue
+            out.fail(c, f)
     # pass 2: the model
     if ctx.model_ok and lines:
         model = drv.run(lines)
